@@ -100,6 +100,17 @@ def run(facts, rep, tier):
         if b.vis == "pub" or name in seen:
             return False, "%s is pub and block bb%d is reachable when finalized" % (name, bb)
         cs = callers.get(name, [])
+        if not cs and b.kind == "closure" and b.root in facts.bodies and b.root not in seen:
+            # a closure handed to a combinator (map_err / and_then / for_each ..) runs inside its creating function: the
+            # obligation is that of the place where the closure is created
+            pb = facts.bodies[b.root]
+            made = [bb2 for bb2, j2, place2, rv2 in pb.assigns() if rv2[0] == "agg" and rv2[1].get("k") == "closure" and rv2[1].get("def") == name]
+            if made:
+                for bb2 in made:
+                    ok, why = site_protected(b.root, bb2, seen + (name,))
+                    if not ok:
+                        return False, "closure created in %s: %s" % (b.root, why)
+                return True, "closure; its creation site(s) in %s are protected" % b.root
         if not cs:
             return False, "%s has no callers to lift the obligation to" % name
         for (cn, cbb) in cs:
@@ -633,9 +644,34 @@ def dependency_discipline(facts, rep, flow_of):
         collect(h, hfl, lambda tgt, h=h, oks=oks: bool(set(C.reachable(h, [tgt])) & set(oks)), via=h.id.split("::")[-1])
     want = ["dependency lives in this graph", "dependency id precedes the new node", "stored node at that id is the dependency",
             "graph dependency is finalized", "graph dependency is older than this graph", "graph dependency is in the same context"]
+    # guards that may have been moved into iterator closures (`deps.iter().any(|d| ..)`, `try_for_each(|g| ..)`): the rule does
+    # not read those; when the characteristic getter of a check is called inside such a closure (or a helper's closure) the
+    # check is reported as not judged instead of missing
+    GETTER = {"dependency lives in this graph": "graphs::Node::get_graph", "dependency id precedes the new node": "graphs::Node::get_id",
+              "stored node at that id is the dependency": "::index", "graph dependency is finalized": "graphs::Graph::is_finalized",
+              "graph dependency is older than this graph": "graphs::Graph::get_id",
+              "graph dependency is in the same context": "graphs::Graph::get_context"}
+    fam_closures = list(facts.closures_of(b.id))
+    for cbb, ct in b.calls():
+        h = facts.bodies.get(callee_name(ct) or "")
+        if h is not None and h is not b and h.kind != "closure" and h.file.endswith("graphs.rs") and not b.is_cleanup(cbb):
+            fam_closures += list(facts.closures_of(h.id))
+
+    for c_ in list(fam_closures):
+        for _, t_ in c_.calls():
+            h2 = facts.bodies.get(callee_name(t_) or "")
+            if h2 is not None and h2.kind != "closure" and h2.file.endswith("graphs.rs") and h2 not in fam_closures and h2 is not b:
+                fam_closures.append(h2)      # a check function applied per element: `try_for_each(|g| self.check_graph_dependency(g))`
+
+    def maybe_in_closure(kind):
+        g_ = GETTER[kind]
+        return any((callee_name(t_) or "").endswith(g_) for c_ in fam_closures for _, t_ in c_.calls())
     for w in want:
         g = guards.get(w, [])
         ok = any(x[1] for x in g)
+        if not ok and maybe_in_closure(w):
+            rep._unjudged("C11.D", w, "the check that the %s may live in an iterator closure, which this rule does not read" % w)
+            continue
         rep.ob("C11.D", w, ok,
                ("checked before the node is created: a failing test cannot reach the NodeBody aggregate (tests at bb%s)" % [x[0] for x in g])
                if ok else ("no effective check that the %s: the node can be created when it does not hold" % w), b.loc(A))
@@ -645,6 +681,14 @@ def dependency_discipline(facts, rep, flow_of):
             k = rv[1]["fields"].index("id")
             ors = fl.origins(rv[2][k], (bb, j))
             ok = any(o[0] == "call" and o[2].endswith("::len") for o in ors) and all(o[0] in ("call", "cast") for o in ors)
+            if not ok:
+                # the id may be computed by a helper that returns nodes.len()
+                for o in ors:
+                    hb = facts.bodies.get(o[2]) if o[0] == "call" else None
+                    if hb is not None and hb.kind != "closure":
+                        hfl = Flow(facts, hb)
+                        if any(x[0] == "call" and x[2].endswith("::len") for r_ in C.return_blocks(hb) for x in hfl.origins([0], (r_, None))):
+                            ok = True
             rep.ob("C11.D", "id-is-len", ok, "the new node's id is nodes.len() (%s)" % sorted(names(ors)), b.loc(bb))
 
 
